@@ -5,6 +5,7 @@ compile_error!("the simulator must be built with --cfg resolved_verif");
 
 mod cache_engine;
 mod netactors;
+mod props_fs;
 mod props_local;
 mod props_resolve;
 mod props_server;
@@ -31,9 +32,11 @@ static C10: props_resolve::C10 = props_resolve::C10;
 static C06: props_resolve::C06 = props_resolve::C06;
 static C01: props_local::C01 = props_local::C01;
 static C09: props_server::C09 = props_server::C09;
+static C12: props_fs::C12 = props_fs::C12;
+static C19: props_server::C19 = props_server::C19;
 
 fn properties() -> Vec<&'static dyn Property> {
-    vec![&C05, &C15, &C07, &C18, &C08, &C10, &C06, &C01, &C09]
+    vec![&C05, &C15, &C07, &C18, &C08, &C10, &C06, &C01, &C09, &C12, &C19]
 }
 
 fn find(id: &str) -> &'static dyn Property {
